@@ -204,9 +204,9 @@ func deadlockVerdict(s *sink, caseName string, what string) {
 		s.Inconclusive(fmt.Sprintf("watchdog fired in %s (%s) but no goroutine is blocked on an engine lock", caseName, what))
 		return
 	}
-	s.Violate("deadlock:"+strings.Join(sortedKeys(funcs), "+"), caseName,
+	s.Violate("deadlock:engine-mutex", caseName,
 		fmt.Sprintf("%s: operations did not finish within %s and goroutines are blocked on sync mutexes inside internal/engine", what, watchdogDuration()),
-		map[string]any{"blocked_goroutines": blocked})
+		map[string]any{"blocked_in": sortedKeys(funcs), "blocked_goroutines": blocked})
 }
 
 // runStress executes history i. It returns false if the process must stop (deadlock).
